@@ -13,6 +13,10 @@ package main
 //   packdg/datagram-twice       the same application datagram was put into two packets
 //   packdg/datagram-order       datagrams leave in another order than they were accepted
 //   packdg/framer-datagram      the framer returned a DATAGRAM frame (model assumption wf_op)
+//   packdg/wire-datagram-modified  the payload as serialised by appendPacketPayload (with its frame shuffle), parsed the way
+//                               the peer parses it, does not contain each queued datagram byte-identical
+//   packdg/wire-frame-lost      ... or does not contain every other frame the packer was given (ACK, control, STREAM)
+//   packdg/wire-parse-error     ... or does not parse
 
 import (
 	"bufio"
@@ -57,6 +61,7 @@ func runPackDgCase(w *bufio.Writer, seed uint64, idx int, r *u.Rng) {
 		}
 	}()
 	v := quic.VerifNewPackDg()
+	v.SetShuffleSeed(seed*1000003 + uint64(idx))
 	var flight []*quic.VerifPackDgPacket
 	accepted := 0              // datagrams accepted by Add, numbered 0..; payload starts with the number
 	sentCount := map[int]int{} // datagram number -> number of packets it was put into
@@ -112,6 +117,11 @@ func runPackDgCase(w *bufio.Writer, seed uint64, idx int, r *u.Rng) {
 			ops = append(ops, u.Pair(u.App("PCompose", u.Z(m), u.B(ackAllowed), ack, u.B(hasData), packdgFramesTerm(fr)), packdgFramesTerm(pkt.Frames)))
 			desc = append(desc, fmt.Sprintf("compose(%d,ackAllowed=%v,ack=%v)", m, ackAllowed, withAck))
 			flight = append(flight, pkt)
+			for rep := 0; rep < 3; rep++ { // three draws of the frame shuffle
+				if cls, d := v.WireCheck(pkt); cls != "" {
+					fail("packdg/wire-"+cls, d)
+				}
+			}
 			for _, f := range fr {
 				if f.Kind == 0 {
 					fail("packdg/framer-datagram", "framer.Append returned a DATAGRAM frame")
